@@ -4,7 +4,7 @@ LOG=$1; shift
 cd /verif
 for id in "$@"; do
   s=$(date +%s)
-  KSE_THOROUGH_MINUTES=4 timeout 3600 ./kv check $id --tier thorough --no-evidence --workers 8 > /tmp/thorough-$id.log 2>&1; rc=$?
+  KSE_THOROUGH_MINUTES=${TM:-3} timeout 3000 ./kv check $id --tier thorough --no-evidence --workers 6 > /tmp/thorough-$id.log 2>&1; rc=$?
   echo "$id exit=$rc wall=$(( $(date +%s) - s ))s $(grep -cE '^INCONCLUSIVE' /tmp/thorough-$id.log) incon $(grep -cE '^VIOLATION' /tmp/thorough-$id.log) viol" >> $LOG
 done
 echo FINISHED >> $LOG
